@@ -291,6 +291,10 @@ fn structural_cases(text: &str, out: &mut Vec<Case>) {
                 for (r, k) in [("&#9;", "tab"), ("&#10;", "lf"), ("&#13;", "cr"), ("&#x20;", "space"), ("&#x1F600;", "astral")] {
                     push(&format!("charref-{}-in-attribute", k), splice(text, *vs, 0, r), Expect::Accept);
                 }
+                // literal line ends (CR, CRLF, LF, CR CR LF) and a literal TAB in an attribute value
+                for (r, k) in [("\r", "cr"), ("\r\n", "crlf"), ("\n", "lf"), ("\r\r\n", "crcrlf"), ("\t", "tab"), ("x\r", "cr-last")] {
+                    push(&format!("literal-{}-in-attribute", k), splice(text, *vs, 0, r), Expect::Accept);
+                }
             }
             let _ = i;
         }
@@ -397,6 +401,9 @@ fn structural_cases(text: &str, out: &mut Vec<Case>) {
             }
             for (r, k) in [("&#9;", "tab"), ("&#10;", "lf"), ("&#13;", "cr"), ("&#x1F600;", "astral"), ("&#xE9;", "latin")] {
                 push(&format!("charref-{}-in-content", k), splice(text, pos, 0, r), Expect::Accept);
+            }
+            for (r, k) in [("\r", "cr"), ("\r\n", "crlf"), ("\r\r\n", "crcrlf"), ("a]]]&gt;b", "brackets")] {
+                push(&format!("literal-{}-in-content", k), splice(text, pos, 0, r), Expect::Accept);
             }
             push("cdata-end-in-content", splice(text, pos, 0, "]]>"), Expect::Reject);
             push("empty-cdata-in-content", splice(text, pos, 0, "<![CDATA[]]>"), Expect::Accept);
